@@ -1,6 +1,7 @@
 ------------------------------ MODULE CompCheck ------------------------------
 (* Code -> specification for C19. Input (IOEnv.CASE_FILE): {"progs": [...], "obs": [{p, ins, outs, single, ell, vals,
-   raised, stage, errclass, val, exec, orig_same, pre}]} ; one state per observation. *)
+   raised, stage, errclass, val, exec, orig_same, pre, nested, nraised, noccupied, nval, nexec}]} ; one state per observation.
+   nested: the composed DAG was also called inside an outer DAG's describing function (C20). *)
 EXTENDS Compose, TLC, Json, IOUtils
 
 Data == JsonDeserialize(IOEnv.CASE_FILE)
@@ -14,6 +15,10 @@ Spec == Init /\ [][Next]_o
 Clauses(S) == {p[2] : p \in {q \in S : q[1]}}
 Count(reg, cond) == IF cond THEN TLCSet(reg, TLCGet(reg) + 1) ELSE TRUE
 RangeOf(s) == {s[j] : j \in 1..Len(s)}
+
+SetupSites(P) == {<<j>> : j \in {k \in 1..Len(P.sites) : P.sites[k].setup}}
+SameFunction(a, b) == a.kind = b.kind /\ a.fn = b.fn /\ a.setup = b.setup
+ReusedReversed(P, ins) == \E a, b \in 1..Len(ins) : a < b /\ ins[a] > ins[b] /\ SameFunction(P.sites[ins[a]], P.sites[ins[b]])
 
 Must(P, W) == InputOnInput(P, W.ins) \/ Insufficient(P, W.ins, W.outs, W.ell) \/ Duplicate(W.ins)
 May(P, W) == Must(P, W) \/ Overlap(W.ins, W.outs)
@@ -33,7 +38,14 @@ Bad(W) ==
        <<Overlap(W.ins, W.outs) /\ ~must /\ ~exp.err /\ ~W.raised /\ W.val # exp.val, "C19.value">>,
        \* setup results the original had computed when it was composed (W.pre) are taken from it, not computed again
        <<inEq /\ ~W.raised /\ RangeOf(W.exec) # exp.exec \ RangeOf(W.pre), "C19.exec">>,
-       <<~W.orig_same, "C19.original-changed">>})
+       <<~W.orig_same, "C19.original-changed">>,
+       \* C20: the composed DAG called inside another DAG's describing function is its body written in place
+       \* (known finding: two call sites of one re-used function given as inputs, the later call site first - the
+       \* stubs of the nested call then get the same id and the outer DAG fails to build, "already occupied")
+       <<inEq /\ W.nested /\ (W.nraised \/ W.nval # exp.val) /\ ~(W.noccupied /\ ReusedReversed(P, W.ins)), "C20.composed-nested-value">>,
+       <<inEq /\ W.nested /\ W.nraised /\ W.noccupied /\ ReusedReversed(P, W.ins), "C20.composed-nested-occupied">>,
+       \* the direct call made just before has stored the setup results in the composed DAG
+       <<inEq /\ W.nested /\ ~W.nraised /\ RangeOf(W.nexec) # (exp.exec \ RangeOf(W.pre)) \ SetupSites(P), "C20.composed-nested-exec">>})
 
 Check ==
   LET W == Obs[o]
@@ -42,10 +54,11 @@ Check ==
   IN /\ Count(1, TRUE)
      /\ Count(2, ~May(P, W) /\ ~ComposeEval(P, W.ins, W.outs, W.single, W.ell, W.vals).err)
      /\ Count(3, Must(P, W))
+     /\ Count(5, W.nested /\ ~May(P, W) /\ ~ComposeEval(P, W.ins, W.outs, W.single, W.ell, W.vals).err)
      /\ Count(4, \E j \in Needed(P, W.ins, W.outs) \ SeqRange(W.ins) : P.sites[j].active.c = "site" /\ P.sites[j].active.n \in SeqRange(W.ins))
      /\ (b = {} \/ PrintT("MISMATCH " \o ToJson([o |-> o, c |-> b,
             expval |-> ComposeEval(P, W.ins, W.outs, W.single, W.ell, W.vals).val,
             expexec |-> ComposeEval(P, W.ins, W.outs, W.single, W.ell, W.vals).exec])))
-ASSUME \A reg \in 1..4 : TLCSet(reg, 0)
-Counts == PrintT("COUNTS " \o ToJson([rows |-> TLCGet(1), ineq |-> TLCGet(2), mustraise |-> TLCGet(3), flaginput |-> TLCGet(4)]))
+ASSUME \A reg \in 1..5 : TLCSet(reg, 0)
+Counts == PrintT("COUNTS " \o ToJson([rows |-> TLCGet(1), ineq |-> TLCGet(2), mustraise |-> TLCGet(3), flaginput |-> TLCGet(4), nested |-> TLCGet(5)]))
 =============================================================================
